@@ -491,9 +491,15 @@ pub fn run_shape(case: &ShapeCase, prop: Prop) -> R<CaseReport> {
     let letters = |v: &Vec<u8>| -> Vec<u8> { v.iter().map(|b| b"abABrR01"[(*b % 8) as usize]).collect() };
     let (a, b) = (letters(&case.a), letters(&case.b));
     macro_rules! go {
-        ($mk:expr, $same_hash:expr, $same_eq:expr, $show:expr) => {{
+        ($mk:expr, $same_hash:expr, $same_eq:expr, $show:expr) => {
+            go!(@ $same_hash, $same_eq, $show, $mk(&a), $mk(&b))
+        };
+        ($mk:expr, $same_hash:expr, $same_eq:expr, $show:expr, $va:expr, $vb:expr) => {
+            go!(@ $same_hash, $same_eq, $show, $va, $vb)
+        };
+        (@ $same_hash:expr, $same_eq:expr, $show:expr, $va:expr, $vb:expr) => {{
             for by_hash in [true, false] {
-                let (va, vb) = ($mk(&a), $mk(&b));
+                let (va, vb) = ($va, $vb);
                 let differs = if by_hash { !$same_hash } else { !$same_eq };
                 let flag = Flag::new();
                 let w = flag_waker(&flag);
@@ -538,6 +544,35 @@ pub fn run_shape(case: &ShapeCase, prop: Prop) -> R<CaseReport> {
             }
         }};
     }
+    // kind 3: pointer-sized integers inside a tuple (hashed through write_usize / write_isize); the
+    // near variant differs from `a` in one bit anywhere in the word, high half included
+    let word = |v: &Vec<u8>| -> (usize, isize) {
+        let mut x = [0u8; 8];
+        for (i, b) in case_bytes(v).iter().take(8).enumerate() {
+            x[i] = *b;
+        }
+        let u = u64::from_le_bytes(x);
+        (u as usize, (u.rotate_left(17) as i64) as isize)
+    };
+    fn case_bytes(v: &Vec<u8>) -> &Vec<u8> {
+        v
+    }
+    if case.kind % 4 == 3 {
+        let wa = word(&case.a);
+        let wb = if case.a.len() == case.b.len() && !case.b.is_empty() {
+            // (the generator's near variant) one bit of difference
+            let bit = case.b.iter().map(|x| *x as u32).sum::<u32>() % 64;
+            ((wa.0 as u64 ^ (1u64 << bit)) as usize, wa.1)
+        } else {
+            word(&case.b)
+        };
+        let (a, b) = (wa, wb);
+        let _ = (&a, &b);
+        go!(|_v: &Vec<u8>| (0usize, 0isize), a == b, a == b, |v: &(usize, isize)| *v, a, b);
+        rep.nontrivial = a != b;
+        rep.classes.push("pointer_sized_integer_value");
+        return Ok(rep);
+    }
     match case.kind % 3 {
         0 => go!(|v: &Vec<u8>| v.clone(), a == b, a == b, |v: &Vec<u8>| v.clone()),
         1 => go!(|v: &Vec<u8>| String::from_utf8(v.clone()).unwrap(), a == b, a == b, |v: &String| v.clone().into_bytes()),
@@ -557,7 +592,7 @@ pub fn run_shape(case: &ShapeCase, prop: Prop) -> R<CaseReport> {
 
 pub fn shape_case() -> BoxedStrategy<ShapeCase> {
     let bytes = || proptest::collection::vec(any::<u8>(), 0..=11);
-    (bytes(), bytes(), 0u8..3, any::<bool>(), any::<bool>())
+    (bytes(), bytes(), 0u8..4, any::<bool>(), any::<bool>())
         .prop_map(|(a, b, kind, shared, near)| {
             // half of the cases: b is a with one position changed (same length, near-collisions)
             let b = if near && !a.is_empty() {
